@@ -44,7 +44,15 @@ TCall ==
        /\ hist' = h
   /\ UNCHANGED d
 
-TNext == TNew \/ TCall
+(* A rate-limited SESSION (sync_client/client.py, getnext.py, getbulk.py, async_client/client.py _send):
+   every request that reaches the wire was preceded by its own grant from the policer.
+     {"ev":"Sess"}   a fresh session with a policer      {"ev":"Grant"}  policer.get_timeout() was consulted
+     {"ev":"Wire"}   a request datagram reached the agent                                             *)
+TSess == IsEvent("Sess") /\ hist' = <<>> /\ d' = 0
+TGrant == IsEvent("Grant") /\ hist' = <<"granted">> /\ UNCHANGED d
+TWire == IsEvent("Wire") /\ hist = <<"granted">> /\ hist' = <<>> /\ UNCHANGED d      \* no request without a fresh grant
+
+TNext == TNew \/ TCall \/ TSess \/ TGrant \/ TWire
 TSpec == TInit /\ [][TNext]_tvars
 
 TraceAccepted ==
